@@ -6,6 +6,7 @@ CHECK = {
     "entries": [
         {"fn": P + "vC38_gcounter", "cases_quick": {"slots": [6]}, "cases_thorough": {"slots": [9]}},
         {"fn": P + "vC38_pncounter", "cases_quick": {"slots": [6]}, "cases_thorough": {"slots": [9]}},
+        {"fn": P + "vC38_counter_value"},
         {"fn": P + "vC38_flag", "cases_quick": {"slots": [6]}, "cases_thorough": {"slots": [9]}},
         {"fn": P + "vC38_lww", "cases_quick": {"slots": [6]}, "cases_thorough": {"slots": [9]}},
         {"fn": P + "vC38_lww_anyclock", "cases_quick": {"slots": [6]}, "cases_thorough": {"slots": [9]}},
